@@ -319,6 +319,28 @@ def goal_texts(p, rng):
     return ms, [gen.goal_text(m) for m in ms]
 
 
+def n_assignments(p):
+    """number of assignment statements of a source program (size measure for the time limits)"""
+    def cnt(block):
+        k = 0
+        for st_ in block:
+            if st_[0] == "assign":
+                k += 1
+            elif st_[0] == "simult":
+                k += len(st_[1])
+            elif st_[0] == "if":
+                k += sum(cnt(b) for _, b in st_[1]) + (cnt(st_[2]) if st_[2] else 0)
+        return k
+    return cnt(p["init"]) + cnt(p["body"])
+
+
+# A time-out is read as "does not terminate" only for programs small enough that the unchanged tree needs seconds
+# (every hand-written shape has at most 12 assignments).  Polar's cost grows steeply with the number of branches
+# (the 45-assignment all-finite program of the thorough tier needs 500 s per moment and DOES finish): beyond the
+# bound a time-out is inconclusive, counted, never a verdict.
+SMALL_PROGRAM = 14
+
+
 def abstraction_fits(values_sym, exact_vals):
     """is there an assignment of constants in [0, 1] to the abstraction probabilities under which the symbolic values
     equal the exact ones at n = 0..N?  True / False / None (undecided: sympy could not solve)"""
@@ -464,8 +486,10 @@ def run(ctx):
         if r.get("error") == "timeout":
             st["timeouts"] += 1
             bump(exc_hist, "timeout")
-            if inclass:
+            if inclass and n_assignments(p) <= 2 * SMALL_PROGRAM:
                 ctx.violation(f"timeout:{text}", replay, f"in-class program ({shape}): normalisation alone does not finish within 60 s\n{text}")
+            elif inclass:
+                st["slow_inconclusive"] = st.get("slow_inconclusive", 0) + 1
             continue
         if "error" in r:
             bump(exc_hist, "worker-" + r["error"])
@@ -504,9 +528,11 @@ def run(ctx):
             if gr.get("timeout"):
                 st["timeouts"] += 1
                 bump(exc_hist, "timeout")
-                if inclass:
+                if inclass and n_assignments(p) <= SMALL_PROGRAM:
                     ctx.violation(f"timeout:{text}:{gname}", dict(replay, goal=gname),
                                   f"E({gname}) of an in-class program ({shape}) is not analysed within 60 s\n{text}")
+                elif inclass:
+                    st["slow_inconclusive"] = st.get("slow_inconclusive", 0) + 1
                 continue
             if "refused" in gr:
                 bump(exc_hist, "not-effective(solvability_check)")
